@@ -61,7 +61,7 @@ var basicTypes = map[string]types.Type{
 
 var builtinFns = map[string]bool{"len": true, "cap": true, "old": true, "region": true, "offset": true, "fresh": true, "allocated": true,
 	"rsize": true, "istype": true, "astype": true, "bytesat": true, "same": true, "addr": true, "avail": true, "typeid": true, "strof": true,
-	"nilslice": true, "maplen": true, "bytesof": true, "isnil": true, "implements": true, "snap": true, "eqbytes": true, "writable": true, "apply": true, "ufbool": true, "ufint": true, "ufstr": true, "strwin": true, "loopmeasure": true}
+	"nilslice": true, "maplen": true, "bytesof": true, "isnil": true, "implements": true, "snap": true, "eqbytes": true, "writable": true, "apply": true, "ufbool": true, "ufint": true, "ufstr": true, "strwin": true, "loopmeasure": true, "ufcontent": true}
 
 func (en *Env) importPath(name string) string {
 	if name == "vs" {
@@ -1008,6 +1008,32 @@ func (en *Env) call(c ECall) TV {
 				st.assume(st.stringWF(sv))
 			}
 			return TV{V: sv, T: strT}
+		case "ufcontent":
+			// ufcontent("name", s): an uninterpreted integer function of the CONTENT of the string / byte
+			// slice s (not of where it is stored): two applications on equal contents are equal (content
+			// congruence instances are added per query, as for recursive spec functions)
+			nm := en.eval(c.Args[0])
+			if nm.Untyped == nil || nm.Untyped.Kind() != constant.String || len(c.Args) != 2 {
+				en.fail("ufcontent(\"name\", s)")
+			}
+			name := "ufc_" + strings.Map(func(r rune) rune {
+				if r >= 'a' && r <= 'z' || r >= 'A' && r <= 'Z' || r >= '0' && r <= '9' {
+					return r
+				}
+				return '_'
+			}, constant.StringVal(nm.Untyped))
+			tv := en.defaultType(en.eval(c.Args[1]))
+			var arr, off, ln *Term
+			switch v := tv.V.(type) {
+			case VString:
+				arr, off, ln = v.Arr, v.Off, v.Len
+			case VSlice:
+				arr, off, ln = st.regionArrIn(en.heap, byteType, v.Reg), v.Off, v.Len
+			default:
+				en.fail("ufcontent needs a string or []byte")
+			}
+			e.contentUFs[name] = true
+			return TV{V: VScalar{App(name, e.ar.I(), arr, off, ln)}, T: intT}
 		case "loopmeasure":
 			// loopmeasure(N): the value the decreases measure of the enclosing loop N had at the start of
 			// its current iteration (for invariants of inner loops that must carry the outer progress)
